@@ -99,6 +99,7 @@ func TestSim(t *testing.T) {
 	// long enough to be time-sliced
 	// (not in the race build: the race runtime reports each pair of stacks only
 	// once per process, a warm-up run would swallow the first report)
+	WorkerOrdinal = int(job.Start % 1024)
 	if job.Mode != "info" && !RaceBuild {
 		runGuardedGen(t, p, func() json.RawMessage { return p.Gen(7, -1, job.Tier) }, NewSeedTape(7))
 	}
